@@ -239,6 +239,8 @@ def validate_path(stream, c):
 def task_class(args):
     cid, opts = args
     t0 = time.time()
+    if opts.get("deadline") and t0 > opts["deadline"]:
+        return {"class": cid, "stats": Stats().to_json(), "shapes": 0, "kinds_ok": 0, "kinds_bad": [], "finite": {}, "wall": 0, "skipped": True}
     cls = shapes.class_by_id(cid)
     stats = Stats()
     deadline = t0 + opts["class_seconds"]
@@ -284,6 +286,8 @@ def check(tier):
     t0 = time.time()
     rep = install.install()
     opts = tier_opts(tier)
+    if tier == "thorough":
+        opts["deadline"] = t0 + 25 * 60
     pcs = payload_classes()
     if tier == "quick":
         seen = {}
